@@ -43,7 +43,9 @@ Definition impl_slice_vglvls (lv : list Z) (s : option sel) : option (list Z) :=
   end.
 
 (* times = getTimes()[sel]; SDATE/STIME = strftime of times[0];
-   TSTEP = int((datetime(1900,1,1) + (times[1]-times[0])).strftime('%H%M%S')) when more than one step *)
+   when more than one step: dtsec = (times[1]-times[0]).total_seconds();
+   TSTEP = dtsec // 3600 * 10000 + dtsec % 3600 // 60 * 100 + dtsec % 60   (HHHMMSS, hours unbounded;
+   repaired by fixes/C11-slice-tstep-ge-24h.patch -- before, strftime('%H%M%S') dropped whole days) *)
 Definition impl_slice_time (t0 tstep n : Z) (sdate stime : Z) (s : option sel) : option (Z * Z * Z) :=
   match s with
   | None => Some (sdate, stime, tstep)
@@ -51,7 +53,7 @@ Definition impl_slice_time (t0 tstep n : Z) (sdate stime : Z) (s : option sel) :
               | Some (st, cnt) =>
                   if cnt =? 0 then None else
                   let '(d, h) := flag_of_sec (t0 + st * sec_of_hhmmss tstep) in
-                  Some (d, h, if 1 <? cnt then hhmmss_of_sec (sec_of_hhmmss tstep mod 86400) else tstep)
+                  Some (d, h, if 1 <? cnt then hhmmss_of_sec (sec_of_hhmmss tstep) else tstep)
               | None => None
               end
   end.
